@@ -257,6 +257,20 @@ where
 	))
 }
 
+#[cfg(feature = "verif")]
+pub(crate) fn verif_next_value_size(input: &[u8], depth_limit: usize) -> Result<usize, u8> {
+	next_value_size(input, depth_limit).map_err(|err| match err {
+		ReadSizeError::Truncated => 0,
+		ReadSizeError::InvalidMarker => 1,
+		ReadSizeError::DepthLimitExceeded => 2,
+	})
+}
+
+#[cfg(feature = "verif")]
+pub(crate) fn verif_depth_limit() -> usize {
+	DEPTH_LIMIT
+}
+
 /// The error type returned by [`next_value_size`].
 #[derive(Clone, Debug, Eq, PartialEq)]
 enum ReadSizeError {
